@@ -686,12 +686,31 @@ pub fn run(c: &Case) -> Outcome {
     Ok(obs)
 }
 
+/// bounded-exhaustive scope: every labelled digraph on 1..=3 nodes and undirected graph on 1..=4 nodes
+/// (loops included) x every (s, t) x the three weight ranges, relabeled by a rotation
+fn enum_count(_tier: Tier) -> u64 {
+    small_graph_count(3, 4) * 16 * 3
+}
+fn enum_make(_tier: Tier, i: u64) -> Case {
+    let (dir, n, mask) = small_graph(i / 48, 3, 4).expect("index within the scope");
+    let p = i % 48;
+    let (s, t) = ((p % 4) as usize % n, (p / 4 % 4) as usize % n);
+    Case {
+        g: raw_explicit(dir, n, mask, (i % 253) as u8),
+        salt: (i % 251) as u8,
+        s: sel_for(s, n),
+        t: sel_for(t, n),
+        relabel: (0..28u16).map(|k| (k * 7 + (i % 5) as u16) % 5).collect(),
+        wmode: (p / 16) as u8,
+    }
+}
+
 pub fn property() -> Property {
     Property {
         id: "C07",
-        rule: "one random abstract multigraph (1..=9 nodes quick, <=28 thorough; weights 0..9, -4..9 or 1..3) is stored as Graph<u32>, Graph<u8> relabeled with reversed insertion order, StableGraph with node and edge vacancies (two variants), and - when simple - GraphMap, MatrixGraph with reused ids, Csr (two variants), adj::List (directed); about 35 algorithms and walkers (dijkstra, dsatur_coloring, greedy_feedback_arc_set, is_bipartite_undirected, min_spanning_tree_prim, astar, k_shortest_path, spfa, bellman_ford, find_negative_cycle, floyd_warshall, SCCs, has_path_connecting, is_cyclic_*, connected_components, toposort, Topo, Dfs/Bfs/DfsPostOrder, dominators, articulation points, matchings, ford_fulkerson, MST, maximal_cliques, all_simple_paths, page_rank, is_isomorphic, graph6) run on every encoding that satisfies their bounds; answers are translated back to labels and must be identical where unique and equally valid/optimal otherwise (spfa / bellman_ford predecessor tables must be tight shortest-path trees, the astar path must cost what is reported, a label-scripted pruning depth_first_search must give a well-nested event stream and the order-independent reached set, toposort orders are validated); a panic on one encoding while another succeeds is a violation; non-trivial = >= 3 nodes and >= 2 edges (every case has encodings with node_bound > node_count and edge_bound > edge_count); distinct by case fingerprint",
+        rule: "one random abstract multigraph (1..=9 nodes quick, <=28 thorough; weights 0..9, -4..9 or 1..3) is stored as Graph<u32>, Graph<u8> relabeled with reversed insertion order, StableGraph with node and edge vacancies (two variants), and - when simple - GraphMap, MatrixGraph with reused ids, Csr (two variants), adj::List (directed); about 35 algorithms and walkers (dijkstra, dsatur_coloring, greedy_feedback_arc_set, is_bipartite_undirected, min_spanning_tree_prim, astar, k_shortest_path, spfa, bellman_ford, find_negative_cycle, floyd_warshall, SCCs, has_path_connecting, is_cyclic_*, connected_components, toposort, Topo, Dfs/Bfs/DfsPostOrder, dominators, articulation points, matchings, ford_fulkerson, MST, maximal_cliques, all_simple_paths, page_rank, is_isomorphic, graph6) run on every encoding that satisfies their bounds; answers are translated back to labels and must be identical where unique and equally valid/optimal otherwise (spfa / bellman_ford predecessor tables must be tight shortest-path trees, the astar path must cost what is reported, a label-scripted pruning depth_first_search must give a well-nested event stream and the order-independent reached set, toposort orders are validated); a panic on one encoding while another succeeds is a violation; non-trivial = >= 3 nodes and >= 2 edges (every case has encodings with node_bound > node_count and edge_bound > edge_count); distinct by case fingerprint; bounded-exhaustive sub-check: every labelled digraph on 1..=3 nodes and undirected graph on 1..=4 nodes (loops included) x every (s,t) x the three weight ranges",
         assumptions: &["correctness of the answers themselves is decided by C08-C16 and C20; this check only compares encodings"],
         both_profiles: false,
-        subs: vec![sub("encodings/differential", 240_000, 1_500_000, strategy, run)],
+        subs: vec![sub("encodings/differential", 240_000, 1_500_000, strategy, run), sub_enum("encodings/all-small-graphs", enum_count, enum_make, run)],
     }
 }
